@@ -31,6 +31,56 @@ func findStruct(p *packages.Package, name string) (*types.Struct, *types.Named) 
 	return s, n
 }
 
+// isClientType: the interface deps.dev/util/resolve.Client.
+func isClientType(t types.Type) bool {
+	n, ok := t.(*types.Named)
+	return ok && n.Obj().Pkg() != nil && n.Obj().Pkg().Path() == "deps.dev/util/resolve" && n.Obj().Name() == "Client"
+}
+
+// isLruCacheType: *pypi/internal/lru.Cache[..].
+func isLruCacheType(t types.Type) bool {
+	p, ok := t.(*types.Pointer)
+	if !ok {
+		return false
+	}
+	n, ok := p.Elem().(*types.Named)
+	return ok && n.Obj().Pkg() != nil && strings.HasSuffix(n.Obj().Pkg().Path(), "pypi/internal/lru") && n.Obj().Name() == "Cache"
+}
+
+// immutableType: a value of this type, once set, cannot change without an
+// assignment to the variable holding it, and holds no reference to anything
+// that can: booleans, numbers, strings, named types over those without
+// pointer-receiver methods, arrays and structs of such (again without
+// pointer-receiver methods: sync.Mutex or atomic.Int64 are NOT immutable).
+func immutableType(t types.Type) bool {
+	if n, ok := t.(*types.Named); ok {
+		ms := types.NewMethodSet(types.NewPointer(n))
+		for i := 0; i < ms.Len(); i++ {
+			if f, ok := ms.At(i).Obj().(*types.Func); ok {
+				if sig, ok := f.Type().(*types.Signature); ok && sig.Recv() != nil {
+					if _, ptr := sig.Recv().Type().(*types.Pointer); ptr {
+						return false
+					}
+				}
+			}
+		}
+	}
+	switch u := t.Underlying().(type) {
+	case *types.Basic:
+		return u.Kind() != types.UnsafePointer && u.Info()&(types.IsBoolean|types.IsNumeric|types.IsString) != 0
+	case *types.Array:
+		return immutableType(u.Elem())
+	case *types.Struct:
+		for i := 0; i < u.NumFields(); i++ {
+			if !immutableType(u.Field(i).Type()) {
+				return false
+			}
+		}
+		return true
+	}
+	return false
+}
+
 func relType(t types.Type) string {
 	return types.TypeString(t, func(p *types.Package) string { return p.Path() })
 }
@@ -46,9 +96,9 @@ func genResolverShared(repo string) (string, error) {
 	if err != nil {
 		return "", err
 	}
-	var fields, fwrites [][]string
+	var fields, fwrites, stateful [][]string
 	var vwrites, vars [][]string
-	var fillerReads [][]string
+	var fillerReads, fillerOther [][]string
 	for _, p := range pkgs {
 		sysn := p.Types.Name()
 		st, named := findStruct(p, "resolver")
@@ -58,7 +108,20 @@ func genResolverShared(repo string) (string, error) {
 		}
 		if st != nil && isResolverPkg {
 			for i := 0; i < st.NumFields(); i++ {
-				fields = append(fields, []string{sysn, st.Field(i).Name(), relType(st.Field(i).Type())})
+				ft := st.Field(i).Type()
+				class := "other"
+				switch {
+				case isClientType(ft):
+					class = "client"
+				case isLruCacheType(ft):
+					class = "lru-cache"
+				case immutableType(ft):
+					class = "immutable"
+				}
+				fields = append(fields, []string{sysn, st.Field(i).Name(), relType(ft), class})
+				if class == "lru-cache" || class == "other" {
+					stateful = append(stateful, []string{sysn, st.Field(i).Name(), relType(ft), class})
+				}
 			}
 		}
 		// package-level vars
@@ -83,6 +146,8 @@ func genResolverShared(repo string) (string, error) {
 					fname = recvName(fd.Recv.List[0].Type) + "." + fname
 				}
 				isInit := fd.Recv == nil && fd.Name.Name == "init"
+				// assignments inside the constructor, before the object is handed out, are construction
+				isCtor := fd.Recv == nil && fd.Name.Name == "NewResolver"
 				// functions that fill an LRU cache: which fields of this package's
 				// own structs do they read (directly, closures included)?
 				fills := false
@@ -107,7 +172,11 @@ func genResolverShared(repo string) (string, error) {
 							return true
 						}
 						if nt, ok := deref(s.Recv()).(*types.Named); ok && nt.Obj().Pkg() == p.Types {
-							fillerReads = append(fillerReads, []string{sysn, fname, nt.Obj().Name() + "." + s.Obj().Name()})
+							row := []string{sysn, fname, nt.Obj().Name() + "." + s.Obj().Name(), relType(s.Obj().Type())}
+							fillerReads = append(fillerReads, row)
+							if ft := s.Obj().Type(); !isClientType(ft) && !isLruCacheType(ft) {
+								fillerOther = append(fillerOther, row)
+							}
 						}
 						return true
 					})
@@ -170,7 +239,7 @@ func genResolverShared(repo string) (string, error) {
 							noteVar(l, "assign")
 							// any write whose left side goes through a resolver field
 							for e := ast.Unparen(l); ; {
-								if fn := resolverField(e); fn != "" && isResolverPkg {
+								if fn := resolverField(e); fn != "" && isResolverPkg && !isCtor {
 									fwrites = append(fwrites, []string{sysn, fn, fname})
 								}
 								switch y := e.(type) {
@@ -189,12 +258,15 @@ func genResolverShared(repo string) (string, error) {
 						}
 					case *ast.IncDecStmt:
 						noteVar(x.X, "incdec")
-						if fn := resolverField(x.X); fn != "" && isResolverPkg {
+						if fn := resolverField(x.X); fn != "" && isResolverPkg && !isCtor {
 							fwrites = append(fwrites, []string{sysn, fn, fname})
 						}
 					case *ast.UnaryExpr:
 						if x.Op == token.AND {
 							noteVar(x.X, "address-taken")
+							if fn := resolverField(x.X); fn != "" && isResolverPkg {
+								fwrites = append(fwrites, []string{sysn, fn, fname + " (address taken)"})
+							}
 						}
 					case *ast.CallExpr:
 						if id, ok := ast.Unparen(x.Fun).(*ast.Ident); ok {
@@ -239,6 +311,10 @@ func genResolverShared(repo string) (string, error) {
 	}
 	// fields keep declaration order per system; systems sorted
 	sort.SliceStable(fields, func(i, j int) bool { return fields[i][0] < fields[j][0] })
+	sortStable := func(r [][]string) [][]string {
+		sort.SliceStable(r, func(i, j int) bool { return r[i][0] < r[j][0] })
+		return r
+	}
 	emit := func(b *strings.Builder, name, typ, doc string, rows [][]string) {
 		fmt.Fprintf(b, "/-- %s -/\ndef %s : List (%s) := [", doc, name, typ)
 		for i, r := range rows {
@@ -252,10 +328,12 @@ func genResolverShared(repo string) (string, error) {
 	var b strings.Builder
 	b.WriteString("/-! Shape of the three `resolver` structs and of package-level state in util/resolve and\nutil/resolve/{npm,maven,pypi}. See harness/cmd/c05/gens.go. -/\n")
 	b.WriteString("namespace DepsDev.Gen.C05ResolverShared\n\n")
-	emit(&b, "fields", "String × String × String", "(system, field, type) of `resolver`, in declaration order", fields)
+	emit(&b, "fields", "String × String × String × String", "for the reader: (system, field, type, class) of `resolver`, in declaration order; class = client | lru-cache | immutable | other", fields)
+	emit(&b, "statefulFields", "String × String × String × String", "the fields that are neither the client nor of an immutable scalar type (bool, numbers, string, named types / arrays / structs over those without pointer-receiver methods): what a resolver object can carry from one Resolve call to the next", sortStable(stateful))
 	emit(&b, "fieldWrites", "String × String × String", "writes to (or through) a resolver field outside a composite literal: (system, field, function)", sortRows(fwrites))
 	emit(&b, "pkgVarWrites", "String × String × String × String", "package-level variables written by a function other than init: (package, variable, function, how)", sortRows(vwrites))
-	emit(&b, "cacheFillerReads", "String × String × String", "fields of the package's own structs read (directly, closures included) by the functions that call Add on an LRU cache: (system, function, Type.field)", sortRows(fillerReads))
+	emit(&b, "cacheFillerReads", "String × String × String × String", "for the reader: fields of the package's own structs read (directly, closures included) by the functions that call Add on an LRU cache: (system, function, Type.field, type)", sortRows(fillerReads))
+	emit(&b, "cacheFillerOtherReads", "String × String × String × String", "those of them whose type is neither resolve.Client nor an LRU cache: per-call state (the root, ...) that what is stored could depend on", sortRows(fillerOther))
 	emit(&b, "pkgVars", "String × String × String", "all package-level variables, for the reader: (package, variable, type)", sortRows(vars))
 	b.WriteString("end DepsDev.Gen.C05ResolverShared\n")
 	return b.String(), nil
